@@ -26,7 +26,8 @@ dist_s = st.one_of(S.floats(0.0, 2e7), S.floats(0.0, 2e7), S.log_uniform(1e-3, 2
                    st.sampled_from([0.0, 1e-3, 1.0, 1e7, 2e7, 10001965.729]))
 ell_s = S.ellipsoid_spec(280.0, 320.0)
 
-cases = st.fixed_dictionaries({"lat1": lat1_s, "lon1": lon1_s, "az": az_s, "s": dist_s, "ell": ell_s, "kind": S.angle_kind})
+cases = st.fixed_dictionaries({"lat1": lat1_s, "lon1": lon1_s, "az": az_s, "s": dist_s, "ell": ell_s, "kind": S.angle_kind,
+                               "defaults": st.booleans()})
 
 
 def selftest():
@@ -46,7 +47,12 @@ def check_direct(case):
     lat1, lon1, az = S.obj_dec(lat_o), S.obj_dec(lon_o), S.obj_dec(az_o)
     if not (-90.0 <= lat1 <= 90.0):
         raise Discard()
-    got = gd.vincdir(lat_o, lon_o, az_o, case["s"], ell)
+    if case["ell"] == "grs80" and case.get("defaults"):
+        got = gd.vincdir(lat_o, lon_o, az_o, case["s"])                  # default ellipsoid left out
+    elif case.get("defaults"):
+        got = gd.vincdir(lat1=lat_o, lon1=lon_o, azimuth1to2=az_o, ell_dist=case["s"], ellipsoid=ell)
+    else:
+        got = gd.vincdir(lat_o, lon_o, az_o, case["s"], ell)
     if not (isinstance(got, tuple) and len(got) == 3):
         raise Fail("vincdir did not return (lat2, lon2, azimuth2to1)", observed=repr(got))
     lat2, lon2, az21 = got
